@@ -175,6 +175,8 @@ pub enum Seg {
 #[derive(Clone, Debug)]
 pub struct ExpBlock {
     pub name: String,
+    /// The start tag also carries ` größe ключ=é1`.
+    pub unicode: bool,
     /// Extra attributes as written (besides name).
     pub lt: usize,
     /// Byte offset of `>` of the start tag.
@@ -215,6 +217,7 @@ impl Rendered {
 
 struct Open {
     name: String,
+    unicode: bool,
     lt: usize,
     gt: usize,
     comment_end: usize,
@@ -351,7 +354,10 @@ impl<'k> Renderer<'k> {
         let name = format!("b{}", self.counter);
         let lt = self.out.text.len();
         // Extra attributes are written with the quote character of the comment form.
-        let tag = format!("<block name={quote}{name}{quote}{}>", self.extra_attrs.replace('"', &quote.to_string()));
+        // Every second tag also carries a bare attribute with a non-ASCII name and an unquoted
+        // non-ASCII value (attribute names and unquoted values are not limited to ASCII).
+        let unicode = if self.counter % 2 == 0 { " größe ключ=é1" } else { "" };
+        let tag = format!("<block name={quote}{name}{quote}{unicode}{}>", self.extra_attrs.replace('"', &quote.to_string()));
         self.out.text.push_str(&tag);
         (name, lt, lt + tag.len() - 1)
     }
@@ -516,12 +522,14 @@ impl<'k> Renderer<'k> {
             match e {
                 Tags::Open => {
                     let (name, lt, gt) = opened_iter.next().expect("opened tag");
-                    self.stack.push(Open { name, lt, gt, comment_end, comment_id: id, family: form.family });
+                    let unicode = self.out.text[lt..=gt].contains("größe");
+                    self.stack.push(Open { name, unicode, lt, gt, comment_end, comment_id: id, family: form.family });
                 }
                 Tags::Close => {
                     let open = self.stack.pop().expect("generator never closes at depth 0");
                     self.out.blocks.push(ExpBlock {
                         name: open.name,
+                        unicode: open.unicode,
                         lt: open.lt,
                         gt: open.gt,
                         content_start: open.comment_end,
